@@ -105,7 +105,7 @@ var pureItems = []pureItem{
 		results:  []string{"l"}},
 	// early flush of the pending literal run
 	{name: "flushCond", file: "internal/sender/match.go", fn: "hashSearch",
-		from: "if backup >= int64(head.BlockLength)+chunkSize && end-offset > chunkSize", to: "if backup >= int64(head.BlockLength)+chunkSize && end-offset > chunkSize",
+		from: "if backup >= ", to: "if backup >= ",
 		params:   []pvar{{"backup", "int64"}, {"blockLength", "int32"}, {"end", "int64"}, {"offset", "int64"}, {"flush", "bool"}},
 		abstract: map[string]abstr{"head.BlockLength": {"blockLength", "int32"}},
 		replace:  map[string]repl{"if err := st.matched(": {"let flush := true;", []string{"flush"}}},
@@ -1483,6 +1483,27 @@ func stmtMatches(text, pat string) bool {
 }
 
 func findRange(list []ast.Stmt, from, to string, src func(ast.Node) string) []ast.Stmt {
+	if strings.HasPrefix(from, "~") {
+		// a "contains" pattern names the innermost statement that contains the text
+		for _, s := range list {
+			var found []ast.Stmt
+			ast.Inspect(s, func(n ast.Node) bool {
+				if found != nil {
+					return false
+				}
+				switch b := n.(type) {
+				case *ast.BlockStmt:
+					found = findRange(b.List, from, to, src)
+				case *ast.CaseClause:
+					found = findRange(b.Body, from, to, src)
+				}
+				return found == nil
+			})
+			if found != nil {
+				return found
+			}
+		}
+	}
 	for i, s := range list {
 		if stmtMatches(src(s), from) {
 			for j := i; j < len(list); j++ {
